@@ -1,6 +1,7 @@
 // R7: the ghost-modelled writer.  `write_all(d)` either appends all of `d` and returns Ok, or
 // appends some prefix of `d` and returns Err — the contract of io::Write::write_all.
-pub struct VxWriter { pub bytes: Vec<u8> }
+/// `infallible`: the concrete writer is a `Vec<u8>`, whose `io::Write` impl never returns an error (std)
+pub struct VxWriter { pub bytes: Vec<u8>, pub infallible: Ghost<bool> }
 #[verifier::external_body]
 pub struct VxIoError { _p: () }
 pub type VxIoResult<T> = Result<T, VxIoError>;
@@ -11,5 +12,28 @@ impl VxWriter {
         ensures
             r.is_ok() ==> final(self).bytes@ == old(self).bytes@ + data@,
             r.is_err() ==> old(self).bytes@.is_prefix_of(final(self).bytes@) && final(self).bytes@.is_prefix_of(old(self).bytes@ + data@),
+            final(self).infallible@ == old(self).infallible@, old(self).infallible@ ==> r.is_ok(),
     { unimplemented!() }
 }
+/// `Vec::with_capacity(n)` used as a writer
+#[verifier::external_body]
+pub fn vx_vec_writer() -> (r: VxWriter) ensures r.bytes@.len() == 0, r.infallible@ { unimplemented!() }
+/// bytes that are the UTF-8 encoding of a text (the precondition of String::from_utf8_unchecked)
+pub uninterp spec fn is_utf8(b: Seq<u8>) -> bool;
+/// the text a valid UTF-8 byte sequence encodes
+pub uninterp spec fn utf8_text(b: Seq<u8>) -> Seq<char>;
+/// escaping valid UTF-8 byte-wise (only ASCII bytes are replaced, by ASCII) gives valid UTF-8
+#[verifier::external_body]
+pub proof fn axiom_esc_keeps_utf8(s: &str) ensures is_utf8(esc(s.spec_bytes())) {}
+#[verifier::external_body]
+pub fn vx_string_from_utf8_unchecked(w: VxWriter) -> (r: String)
+    requires is_utf8(w.bytes@)
+    ensures r@ == utf8_text(w.bytes@)
+{ unimplemented!() }
+/// `r.unwrap()` on an io::Result: a panic unless Ok
+#[verifier::external_body]
+pub fn vx_unwrap_io(r: VxIoResult<()>) requires r.is_ok() { unimplemented!() }
+#[verifier::external_body]
+pub struct Kwargs { _p: () }
+#[verifier::external_body]
+pub struct State { _p: () }
